@@ -65,6 +65,7 @@ fn main() {
         let s = std::fs::read_to_string(&args[2]).expect("cannot read replay file");
         let case: serde_json::Value = serde_json::from_str(&s).expect("replay file is not JSON");
         let clauses = replay_case(&case, true);
+        run::cleanup_child_exe();
         println!("clauses failing now: {:?}", clauses);
         let want = case["clause"].as_str().unwrap_or("");
         if clauses.iter().any(|c| c == want) {
@@ -105,6 +106,7 @@ fn main() {
             2
         }
     };
+    run::cleanup_child_exe();
     std::process::exit(code);
 }
 
